@@ -2,6 +2,7 @@
 //! records traces of the real code for validation against the TLA+ specifications.
 mod cli;
 mod addr;
+mod bridge;
 mod cert;
 mod client;
 mod conn;
@@ -34,6 +35,7 @@ fn main() {
         "poolobs" => poolobs::run(rest),
         "client" => client::run(rest),
         "cli" => cli::run(rest),
+        "bridge" => bridge::run(rest),
         "addr" => addr::run_addr(rest),
         "actprobe" => addr::run_actprobe(rest),
         "actserve" => addr::run_actserve(rest),
